@@ -24,12 +24,12 @@ def fmtRat (q : Rat) : String := if q.den == 1 then toString q.num else s!"{q.nu
 def fmtClk : Clk → String
   | .sys => "sys" | .app => "app" | .tempo i => s!"t{i}"
 
-def fmtEv (start : Rat) (genSeed : Nat → Option Nat) : Ev → String
+def fmtEv (start : Rat) (_genSeed : Nat → Option Nat) : Ev → String
   | .resume r pc c b s => s!"R:{r}:{pc}:{fmtClk c}:{fmtRat b}:{fmtRat (s - start)}"
   | .log r b s => s!"L:{r}:{fmtRat b}:{fmtRat (s - start)}"
   | .send r b s => s!"B:{r}:{b}:{fmtRat (s - start)}"
-  | .draw r g i =>
-    let name := match genSeed g with
+  | .draw r _ sd i =>
+    let name := match sd with
       | none => "M"
       | some n => toString n
     s!"D:{r}:{name}:{i}"
@@ -70,6 +70,8 @@ def parseAct (ws : List String) : Option Act :=
   | ["draw"] => some .draw
   | ["pull", r] => do some (.pull (← r.toNat?))
   | ["raise"] => some .raise
+  | ["save", k, r] => do some (.save (← k.toNat?) (← r.toNat?))
+  | ["restore", k, r] => do some (.restore (← k.toNat?) (← r.toNat?))
   | ["defer", r, c, d] => do some (.defer (← r.toNat?) (← parseClk c) (← parseRat d))
   | ["etempo", i, x] => do some (.setTempo (← i.toNat?) (← parseRat x))  -- same map as `tempo=` at logical = elapsed time
   | _ => none
